@@ -156,7 +156,7 @@ def tlc_gen_replay(tag, module, consts, invariants, workers=None, timeout_s=1800
     return info, stats, viols
 
 
-def tlc_sim_replay(tag, module, consts, invariants, num, depth, seed, init, nxt, extra="", timeout_s=1200):
+def tlc_sim_replay(tag, module, consts, invariants, num, depth, seed, init, nxt, extra="", timeout_s=2400):
     """TLC in simulation mode (random behaviours of the given depth), stdout piped into the replayer."""
     d = os.path.join(WORK, tag)
     shutil.rmtree(d, ignore_errors=True)
